@@ -246,10 +246,11 @@ pub fn scan_sources(dir: &str) -> Result<ScanResult, String> {
 }
 
 // ---- reader scripts -----------------------------------------------------------------------------
-pub const SCRIPT_KINDS: usize = 13;
+pub const SCRIPT_KINDS: usize = 15;
 pub const SCRIPT_NAMES: [&str; SCRIPT_KINDS] = [
     "ancestors", "predecessors", "preceding_siblings", "following_siblings", "children", "reverse_children",
     "descendants", "traverse", "reverse_traverse", "links", "next_traverse-steps", "get+payload", "children-from-both-ends",
+    "pretty-print", "debug-rendering",
 ];
 
 fn h<T: std::hash::Hash>(t: &T) -> u64 {
@@ -302,6 +303,35 @@ pub fn make_reader<'a>(arena: &'a Arena<Payload>, kind: usize, id: NodeId) -> Bo
                 }
             })
         }
+        13 => {
+            // the pretty printer of the subtree, the four modes in turn
+            let mut k = 0usize;
+            Box::new(move || {
+                let p = id.debug_pretty_print(arena);
+                let s = match k % 4 {
+                    0 => format!("{}", p),
+                    1 => format!("{:#}", p),
+                    2 => format!("{:?}", p),
+                    _ => format!("{:#?}", p),
+                };
+                k += 1;
+                h(&s)
+            })
+        }
+        14 => {
+            // the derived renderings of the arena, the node and the id
+            let mut k = 0usize;
+            Box::new(move || {
+                let s = match k % 4 {
+                    0 => format!("{:?}", arena),
+                    1 => format!("{:?} {}", arena.get(id), id),
+                    2 => format!("{:#?}", arena),
+                    _ => format!("{:?}", id),
+                };
+                k += 1;
+                h(&s)
+            })
+        }
         _ => {
             let mut it = id.children(arena);
             let mut k = 0usize;
@@ -311,6 +341,78 @@ pub fn make_reader<'a>(arena: &'a Arena<Payload>, kind: usize, id: NodeId) -> Bo
             })
         }
     }
+}
+
+/// Every script from every live node run while its thread is unwinding from a panic (inside the
+/// destructor of a guard), on the calling thread and on a spawned one next to healthy readers:
+/// what a reader observes must not depend on the state of its thread.
+pub fn unwinding_readers(s: &State, steps: usize) -> Option<String> {
+    let arena = &s.arena;
+    let live: Vec<NodeId> = s.model.live_slots().iter().map(|&x| s.cur[x]).collect();
+    let mut scripts: Vec<(usize, NodeId)> = Vec::new();
+    for &id in &live {
+        for kind in 0..SCRIPT_KINDS {
+            scripts.push((kind, id));
+        }
+    }
+    let solos: Vec<Vec<u64>> = scripts.iter().map(|&(kind, id)| solo(arena, kind, id, steps)).collect();
+    struct Guard<'a> {
+        arena: &'a Arena<Payload>,
+        scripts: &'a [(usize, NodeId)],
+        steps: usize,
+        out: &'a std::sync::Mutex<Vec<Vec<u64>>>,
+        panicking: &'a std::sync::atomic::AtomicBool,
+    }
+    impl Drop for Guard<'_> {
+        fn drop(&mut self) {
+            self.panicking.store(std::thread::panicking(), std::sync::atomic::Ordering::SeqCst);
+            let mut v = Vec::new();
+            for &(kind, id) in self.scripts {
+                let mut r = make_reader(self.arena, kind, id);
+                v.push((0..self.steps).map(|_| r()).collect());
+            }
+            *self.out.lock().unwrap() = v;
+        }
+    }
+    let run = |whence: &str| -> Option<String> {
+        let out = std::sync::Mutex::new(Vec::new());
+        let was = std::sync::atomic::AtomicBool::new(false);
+        let _ = std::panic::catch_unwind(std::panic::AssertUnwindSafe(|| {
+            let _g = Guard { arena, scripts: &scripts, steps, out: &out, panicking: &was };
+            std::panic::resume_unwind(Box::new("unwinding on purpose"));
+        }));
+        if !was.load(std::sync::atomic::Ordering::SeqCst) {
+            return Some("machinery: the guard did not run during unwinding".into());
+        }
+        let got = out.into_inner().unwrap();
+        for (i, g) in got.iter().enumerate() {
+            if *g != solos[i] {
+                return Some(format!("script {} from {} run {whence} while the thread unwinds from a panic observes something else than in a healthy thread", SCRIPT_NAMES[scripts[i].0], obs::fmt_id(Some(scripts[i].1))));
+            }
+        }
+        if got.len() != solos.len() {
+            return Some("machinery: not every script ran in the guard".into());
+        }
+        None
+    };
+    if let Some(m) = run("on the calling thread") {
+        return Some(m);
+    }
+    // on a spawned thread, with a healthy reader thread running the same scripts next to it
+    let mut res = None;
+    std::thread::scope(|sc| {
+        let a = sc.spawn(|| run("on a spawned thread"));
+        let b = sc.spawn(|| {
+            for (i, &(kind, id)) in scripts.iter().enumerate() {
+                if solo(arena, kind, id, steps) != solos[i] {
+                    return Some(format!("script {} next to an unwinding thread differs from its solo run", SCRIPT_NAMES[kind]));
+                }
+            }
+            None
+        });
+        res = a.join().ok().flatten().or(b.join().ok().flatten());
+    });
+    res
 }
 
 pub fn solo(arena: &Arena<Payload>, kind: usize, id: NodeId, steps: usize) -> Vec<u64> {
